@@ -3,6 +3,17 @@ sub-batches, budgets, and the descriptive fields of the evidence files."""
 
 REAL_COMMON = "clock: testing/synctest fake clock; scheduler: /verif/sim/kernel (choice tape, one decision at a time)"
 
+# quic-go compares `now.After(idle deadline)`; under the exact fake clock the
+# idle timer fires with now == deadline, the check fails and the run loop
+# re-arms the same timer for ever.  The simulated copy uses !now.Before().
+# More generally quic-go arms its timers with time.Until(deadline) and then
+# compares now with the same deadline using strict After/Before, which a real
+# clock always satisfies because timers fire late; the simulated copy fires
+# them one microsecond after the deadline.
+QUIC_MODREPLACE = {"github.com/quic-go/quic-go@v0.48.2": (
+    ".=textsub:now\\.After\\(s\\.nextIdleTimeoutTime\\(\\)\\)=>!now.Before(s.nextIdleTimeoutTime());"
+    "internal/utils=textsub:t\\.t\\.Reset\\(time\\.Until\\(deadline\\)\\)=>t.t.Reset(time.Until(deadline) + time.Microsecond)")}
+
 PROPS = {
     "C16": {
         "engine": "billsim",
@@ -28,9 +39,10 @@ PROPS = {
         },
     },
     "C18": {
-        "engine": "connsim",
-        "instrument": "internal/connlimiter=locks,cond",
-        "cfgs": ["", "multi"],
+        "parts": [
+            {"engine": "connsim", "instrument": "internal/connlimiter=locks,cond", "cfgs": ["", "multi"], "share": 3, "chunk": 4000},
+            {"engine": "wire", "cfgs": [""], "modreplace": QUIC_MODREPLACE, "share": 1, "chunk": 200},
+        ],
         "quick": {"seconds": 25, "chunk": 4000, "runs": 300000},
         "thorough": {"seconds": 600, "chunk": 20000},
         "rule": ("one run = limiter with tape-chosen stop in 1..5 and resume in 0..stop over 1-3 simulated "
@@ -41,11 +53,11 @@ PROPS = {
                  "closed; distinct = distinct hash of the decision sequence"),
         "assumptions": [
             "the reference hysteresis (count, accepting) is driven by events the harness observes in the same scheduler step in which the limiter changes its counter (there is no yield between the counter update and the observation)",
-            "pipeline limiting (second half of C18) is checked by the wire engine sub-batch, not here",
+            "pipeline limiting (second half of C18) is checked by the wire engine part: real ServerDNS/ServerTLS with limit 1-4, bursts of 1-20 queries in one write, handler holding each query for 0/50ms/1s of simulated time",
             "bounded liveness is asserted only at quiescence after dialer, closers and listener closer have finished",
         ],
         "components": {
-            "real": ["internal/connlimiter (Limiter, limitListener, limitConn, counter)"],
+            "real": ["internal/connlimiter (Limiter, limitListener, limitConn, counter)", "internal/dnsserver ServerDNS/ServerTLS pipeline semaphore (wire part)"],
             "stub": ["net.Listener / net.Conn below the limiter (simulated)", "prometheus metrics (real registry, unobserved)"],
             "sim": REAL_COMMON,
         },
@@ -53,7 +65,7 @@ PROPS = {
     "C14": {
         "engine": "pdbsim",
         "instrument": "internal/profiledb=locks;internal/profiledb/internal/filecachepb=calls:renameio\\.|os\\.WriteFile|os\\.Rename",
-        "modreplace": {"github.com/google/renameio/v2@v2.0.0": "calls:^t\\.Write$|^t\\.Sync$|os\\.Rename|CloseAtomicallyReplace"},
+        "modreplace": {"github.com/google/renameio/v2@v2.0.0": ".=calls:^t\\.Write$|^t\\.Sync$|os\\.Rename|CloseAtomicallyReplace"},
         "cfgs": ["", "nocrash"],
         "quick": {"seconds": 40, "chunk": 1500, "runs": 60000},
         "thorough": {"seconds": 900, "chunk": 5000},
@@ -147,6 +159,88 @@ PROPS = {
             "real": ["internal/ecscache", "dnssvc.NewHandlers stack incl. ratelimitmw request-info/ECS parsing (FORMERR path)", "dnsmsg ECS helpers"],
             "stub": ["upstream handler (scripted, tags answers with the forwarded subnet)", "GeoIP (transparent table)"],
             "sim": "clock: testing/synctest fake clock; sequential history",
+        },
+    },
+    "C01": {
+        "engine": "wire",
+        "instrument": "",
+        "cfgs": ["", "nodrop", "nofault"],
+        "det_runs": 12,
+        "modreplace": QUIC_MODREPLACE,
+        "det_trace": False,
+        "quick": {"seconds": 60, "chunk": 150, "runs": 6000, "chunk_ms": 40000, "kill_after": 300},
+        "thorough": {"seconds": 1200, "chunk": 400, "kill_after": 600},
+        "rule": ("one run = six real servers (plain DNS UDP+TCP, DoT, DoH h1/h2, DoQ) on the simulated network with one "
+                 "deterministic pipeline function as handler; 4-24 items, each a well-formed query (names: mixed case, escaped "
+                 "bytes, 1-127 labels, 255 octets, root; 10 qtypes incl. 0/65535/ANY/OPT/AXFR; 6 qclasses; RD/AD/CD/Z/TC/AA bits; "
+                 "EDNS with sizes 0..65535, DO, NSID/cookie/padding up to 1200 bytes/unknown options) or a non-query (QR=1, "
+                 "opcodes 1-15, QDCOUNT 0/2, ANCOUNT/NSCOUNT 2, garbage, valid message cut at any offset, trailing garbage), "
+                 "every item sent over every transport (DoH as POST, GET or JSON), pipelined and grouped per connection by the "
+                 "client task's private generator; network per flow: stream segmentation down to single bytes, latencies 0-300ms "
+                 "(reordering), datagram duplication and loss; then, faults off, a fresh query to each listener; "
+                 "every run is non-trivial; distinct = distinct decision-sequence hash"),
+        "assumptions": [
+            "client tasks and servers are real goroutines whose interleaving the Go scheduler decides; every random choice of a task or a network flow comes from a generator private to it (seeded from the tape), so decisions replay exactly while the order of unrelated goroutines may differ",
+            "a message the servers decode but drop is answered on DoQ with a bare SERVFAIL carrying its own ID and question and on DoH with HTTP 500: accepted as the transport's form of dropping",
+            "queries pipelined in front of a message that makes a stream server close the connection are not judged; on DoQ/UDP a missing answer is judged only in the sub-batches without datagram loss",
+            "DNSCrypt is not simulated (its UDP server needs *net.UDPConn)",
+            "quic-go v0.48.2 runs in a copy whose timers fire 1us after their deadline (it compares now with the deadline strictly, which the exact fake clock never satisfies)",
+        ],
+        "components": {
+            "real": ["internal/dnsserver: ServerDNS (UDP, TCP), ServerTLS, ServerHTTPS (HTTP/1.1, h2), ServerQUIC, normalize, message acceptance", "crypto/tls, net/http, x/net/http2, quic-go on the simulated network"],
+            "stub": ["network (simnet over netext.ListenConfig)", "handler (deterministic pipeline function)", "clock (synctest)"],
+            "sim": "clock: testing/synctest; network: /verif/sim/simnet discrete-event mode with per-flow generators",
+        },
+    },
+    "C06": {
+        "engine": "wire",
+        "instrument": "",
+        "cfgs": [""],
+        "det_runs": 12,
+        "modreplace": QUIC_MODREPLACE,
+        "det_trace": False,
+        "quick": {"seconds": 60, "chunk": 150, "runs": 4000, "chunk_ms": 40000, "kill_after": 300},
+        "thorough": {"seconds": 1200, "chunk": 400, "kill_after": 600},
+        "rule": ("one run = two identically configured groups of servers (UDP, TCP, DoT, DoH, DoQ each) in one bubble; group A "
+                 "first serves a history of 1-12 victim queries (unique token names, sizes 30-750 bytes) on every transport so "
+                 "that its pooled receive buffers hold their bytes (GC off, one P); then one probe - header only with QDCOUNT=1, "
+                 "cut at any offset, ANCOUNT/QDCOUNT/ARCOUNT exceeding the data, cut inside a label; on streams also a length "
+                 "prefix larger or smaller than the payload - goes to A and to the fresh group B; every run is non-trivial; "
+                 "distinct = distinct decision-sequence hash"),
+        "assumptions": [
+            "buffer reuse is made likely, not certain: sync.Pool on one P with the collector off; the evidence counts history messages, not confirmed reuses",
+            "the upstream-reply half of C06 (forward.UpstreamPlain) is checked by the fwdsim sub-batch of this property",
+            "network without faults: the fault dimension here is the history of the pooled buffers",
+        ],
+        "components": {
+            "real": ["internal/dnsserver receive paths: UDP, TCP/DoT, DoQ stream, DoH body; syncutil pools"],
+            "stub": ["network (simnet)", "handler (pipeline function)"],
+            "sim": "clock: testing/synctest; network: /verif/sim/simnet immediate mode",
+        },
+    },
+    "C08": {
+        "engine": "wire",
+        "instrument": "",
+        "cfgs": [""],
+        "det_runs": 12,
+        "det_trace": False,
+        "modreplace": QUIC_MODREPLACE,
+        "quick": {"seconds": 60, "chunk": 150, "runs": 4000, "chunk_ms": 40000, "kill_after": 300},
+        "thorough": {"seconds": 1200, "chunk": 400, "kill_after": 600},
+        "rule": ("one run = servers with a tape-chosen configured UDP maximum (0, 512, 1232, 4096, 65535) and 2-8 queries whose "
+                 "name asks the handler for a response of a given size (0..66000 bytes, dense around 512, 1232, 4096 and 65535; "
+                 "with or without an OPT record of the handler's own; records spread over sections), with request EDNS absent or "
+                 "UDP size in {0, 300, 511, 512, 513, 1232, 4096, 65535}, DO, padding, keep-alive, NSID, unknown option; every "
+                 "query is sent over UDP, TCP, DoT, DoH and DoQ and judged on the bytes received; every run is non-trivial; "
+                 "distinct = distinct decision-sequence hash"),
+        "assumptions": [
+            "DNSCrypt (the other UDP transport of the statement) is not simulated",
+            "network without faults: the dimension explored is response size x EDNS settings x configured maximum",
+        ],
+        "components": {
+            "real": ["internal/dnsserver normalize/truncate, response writers of UDP, TCP, DoT, DoH, DoQ", "miekg/dns Truncate and packing"],
+            "stub": ["network (simnet)", "handler (pipeline function with size-by-name responses)"],
+            "sim": "clock: testing/synctest; network: /verif/sim/simnet immediate mode",
         },
     },
 }
